@@ -15,11 +15,12 @@ class Panic(Exception):
 
 
 class TreeEval:
-    def __init__(self, facts, mem=None, opaque=()):
+    def __init__(self, facts, mem=None, opaque=(), oracle=None):
         self.facts = facts
         self._tables = {}
         self.mem = mem
         self.opaque = tuple(opaque)
+        self.oracle = oracle        # oracle(name, evaluated args, evaluator) -> value or None: stated result of a call left opaque
 
     def table(self, name):
         if name not in self._tables:
@@ -173,6 +174,10 @@ class TreeEval:
             name = e[1]
             if name in self.opaque:
                 return ("opaque", name, tuple(self.ev(a) for a in e[2]))
+            if self.oracle is not None:
+                ov = self.oracle(name, e[2], self)
+                if ov is not None:
+                    return ov
             segs = [x for x in name.split("::") if not x.startswith("<")]
             last = segs[-1].split("<")[0] if segs else ""
             args = [self.ev(a) for a in e[2]]
@@ -211,4 +216,5 @@ class TreeEval:
 
 def _boolish(e):
     return e[0] == "bin" and e[1] in ("Eq", "Ne", "Lt", "Le", "Gt", "Ge") or (e[0] == "const" and e[2] == "bool") or e[0] == "phi" \
-        or (e[0] == "un" and e[1] == "Not" and _boolish(e[2]))
+        or (e[0] == "un" and e[1] == "Not" and _boolish(e[2])) \
+        or (e[0] == "call" and e[1].split("<")[0].rstrip(":").split("::")[-1].startswith(("is_", "has", "do_is_")))
